@@ -28,7 +28,7 @@ REFSETS = ((), ('plain',), ('bare',), ('weak',), ('xdb',), ('weakxdb',),
            ('plain', 'bare', 'weak', 'xdb'))
 
 
-def mkdbs(kind, d):
+def mkdbs(kind, d, base_prep=None):
     FS = env.mod('ZODB.FileStorage.FileStorage').FileStorage
     MS = env.mod('ZODB.MappingStorage').MappingStorage
     DS = env.mod('ZODB.DemoStorage').DemoStorage
@@ -37,7 +37,14 @@ def mkdbs(kind, d):
         st = FS(os.path.join(d, 'Data.fs'))
     elif kind == 'DMM':
         st = DS(base=MS('b'), changes=MS('c'))
+    elif kind == 'DMF':
+        st = DS(base=MS('b'), changes=FS(os.path.join(d, 'Changes.fs')))
     else:
+        if base_prep is not None:
+            # the history that the writers start from is in the base layer
+            db0 = DB(FS(os.path.join(d, 'Data.fs')))
+            base_prep(db0)
+            db0.close()
         st = DS(base=FS(os.path.join(d, 'Data.fs')), changes=MS('c'))
     dbs = {}
     db = DB(st, databases=dbs, database_name='main')
@@ -130,20 +137,56 @@ def ref_view(x):
             getattr(x, 'v', None))
 
 
-def scenario(kind, cls, refset, nwriters, order):
-    """One scenario; returns (outcome, violations)."""
+def _undo_last(db):
+    from base64 import encodebytes
+    tmu = transaction.TransactionManager()
+    env.CLOCK.now += 1
+    db.undo(encodebytes(db.storage.lastTransaction()).rstrip(), tmu.get())
+    tmu.commit()
+
+
+def scenario(kind, cls, refset, nwriters, order, prelude='plain'):
+    """One scenario; returns (outcome, violations).
+
+    prelude: how the revisions the conflict is about came to be --
+    'plain' (ordinary commits), 'undo-base' (the revision every writer
+    starts from was written by a transactional undo, i.e. is a record
+    without a pickle of its own), 'undo-committed' (the revision committed
+    under the writers' feet was written by an undo)."""
     env.reset_globals()
     del hclasses.CR_LOG[:]
     viol = []
     d = env.new_dir('cr')
     CE = env.mod('ZODB.POSException').ConflictError
-    db, other = mkdbs(kind, d)
     wit = dict(kind=kind, cls=cls, refs=list(refset), writers=nwriters,
                order=list(order))
+    if prelude != 'plain':
+        wit['prelude'] = prelude
 
     def bad(c, s, det):
-        viol.append((c, '%s:%s' % (s, cls), det))
+        viol.append((c, '%s:%s' % (s if prelude == 'plain' else
+                                   prelude + ':' + s, cls), det))
+    want = {}
+
+    def create(db):
+        tm0 = transaction.TransactionManager()
+        c0 = db.open(tm0)
+        o = make_obj(cls)
+        c0.root()['o'] = o
+        add_refs(c0, o, refset)
+        env.CLOCK.now += 1
+        tm0.commit()
+        if prelude != 'plain':
+            o.v = 7
+            env.CLOCK.now += 1
+            tm0.commit()
+        if prelude == 'undo-base':
+            _undo_last(db)
+        c0.close()
+    db = other = None
     try:
+        db, other = mkdbs(kind, d, create if kind == 'DFM' and
+                          prelude != 'plain' else None)
         if cls == 'X':
             # resolution happens where the class cannot be imported (as on a
             # storage server): hide the module for the duration of the call
@@ -158,14 +201,12 @@ def scenario(kind, cls, refset, nwriters, order):
                 finally:
                     x_class()
             st.tryToResolveConflict = hidden
+        if not (kind == 'DFM' and prelude != 'plain'):
+            create(db)
         tm0 = transaction.TransactionManager()
         c0 = db.open(tm0)
-        o = make_obj(cls)
-        c0.root()['o'] = o
-        add_refs(c0, o, refset)
-        env.CLOCK.now += 1
-        tm0.commit()
         want_refs = [ref_view(x) for x in c0.root()['o'].refs]
+        tm0.abort()
         c0.close()
         # every writer loads the same base revision
         writers = []
@@ -177,9 +218,15 @@ def scenario(kind, cls, refset, nwriters, order):
             writers.append((tm, c, obj, 10 ** i))
         base_v = 0
         committed_v = 0
-        base_sem = None
         outcomes = []
         first = True
+        if prelude == 'undo-committed':
+            # the writers have loaded v=7; the commit under their feet is
+            # the undo of that change
+            base_v = 7
+            _undo_last(db)
+            committed_v = 0
+            first = False
         for wi in order:
             tm, c, obj, inc = writers[wi]
             obj.v = obj.v + inc
@@ -209,7 +256,7 @@ def scenario(kind, cls, refset, nwriters, order):
                     bad('stored', 'mergeable-commit-%s' % out.split(':')[0],
                         dict(wit, outcome=out))
                     break
-                merged = committed_v + inc - base_v
+                merged = committed_v + inc
                 # the resolver saw (old, committed, new)
                 if len(hclasses.CR_LOG) != nlog + 1:
                     bad('args', 'resolver-calls', dict(
@@ -278,6 +325,12 @@ def scenario(kind, cls, refset, nwriters, order):
     return tuple(outcomes), [(c, s, det) for c, s, det in viol]
 
 
+PRELUDES = (('F', 'undo-base'), ('F', 'undo-committed'),
+            ('DMF', 'undo-base'), ('DMF', 'undo-committed'),
+            ('DFM', 'undo-base'))
+PRELUDE_REFSETS = ((), ('plain', 'bare', 'weak'))
+
+
 def sequence_same_class(kind):
     """A failing resolution must not poison later mergeable conflicts on the
     same class (and vice versa), within one process."""
@@ -303,20 +356,21 @@ def sequence_same_class(kind):
     return outs, viol
 
 
-def task(kind, cls, refset):
+def task(kind, cls, refset, prelude='plain'):
     env.install()
     res = schedx._new_res()
     seen = set()
     for nwriters in (2, 3):
         for order in itertools.permutations(range(nwriters)):
-            out, viol = scenario(kind, cls, refset, nwriters, order)
+            out, viol = scenario(kind, cls, refset, nwriters, order, prelude)
             res['cov']['traces_validated_against_impl'] += 1
             res['cov']['states'] += 1
             res['cov']['transitions'] += nwriters
             res['cov']['evaluations'] += 1
             if 'conflict' in out or cls == 'CR-merge':
                 res['cov']['distinct_nontrivial'] += 1
-            key = '%s:%s' % (cls, '/'.join(out))
+            key = '%s%s:%s' % ('' if prelude == 'plain' else prelude + ':',
+                               cls, '/'.join(out))
             res['outcomes'][key] = res['outcomes'].get(key, 0) + 1
             for c, s, d in viol:
                 fs = 'C10.%s:%s:%s' % (c, kind, s)
@@ -354,7 +408,11 @@ def run(rep, tier, seed, workers):
         'resolver; class not importable at resolution time} x reference set '
         '{none, ordinary, bare-oid, weak, cross-database, weak '
         'cross-database, all four} x {2, 3} stale writers x every commit '
-        'order; plus failing-then-mergeable conflict sequences on one class '
+        'order; the same with the base revision, or the revision committed '
+        'under the writers, written by a transactional undo (a record '
+        'without its own pickle) on FileStorage, DemoStorage(Mapping/File) '
+        'and in the FileStorage base of a DemoStorage; plus '
+        'failing-then-mergeable conflict sequences on one class '
         'within one process; non-trivial = scenario with at least one stale '
         'writer')
     tasks = []
@@ -365,6 +423,10 @@ def run(rep, tier, seed, workers):
             for rs in refsets:
                 tasks.append((MOD, 'task', (kind, cls, rs)))
         tasks.append((MOD, 'seq_task', (kind,)))
+    for kind, prelude in PRELUDES:
+        for cls in CLASSES:
+            for rs in PRELUDE_REFSETS:
+                tasks.append((MOD, 'task', (kind, cls, rs, prelude)))
     par.run_tasks(tasks, workers, rep, seed)
     rep.bounds['scenario families'] = len(tasks)
     rep.assumptions = [
@@ -379,7 +441,8 @@ def replay(w):
         kind = wit['sequence']
     else:
         out, viol = scenario(wit['kind'], wit['cls'], tuple(wit['refs']),
-                             wit['writers'], tuple(wit['order']))
+                             wit['writers'], tuple(wit['order']),
+                             wit.get('prelude', 'plain'))
         kind = wit['kind']
     for v in viol:
         print(v)
